@@ -180,6 +180,11 @@ def alModify {α : Type} (k : String) (f : α → α) : List (String × α) → 
   | [] => []
   | (k', v') :: rest => if k' = k then (k', f v') :: rest else (k', v') :: alModify k f rest
 
+/-- apply `f` to the first element that satisfies `p` (Go: `for i := range xs { if p(xs[i]) { …; break } }`) -/
+def updFirst {α : Type} (p : α → Bool) (f : α → α) : List α → List α
+  | [] => []
+  | x :: rest => if p x then f x :: rest else x :: updFirst p f rest
+
 /-! ### commands -/
 
 structure RPSpec where
@@ -577,36 +582,40 @@ def updateSchema (d : Data) (db rp mst : String) (fields : List FieldReq) : Step
     if !checkFields m.schema [] fields then fail d eFieldTypeConflict
     else done (setRP d dbi k (r.setMst { m with schema := applyFields m.schema fields }))
 
+/-- `pruneShardGroups`, first half of the loop body: if `id` lies between the ids of the first
+and the last shard of the group, mark the first shard whose id is ≥ `id` (`sort.Search`). -/
+def markShardIn (id : Nat) (g : SG) : SG :=
+  match g.shards.head?, g.shards.getLast? with
+  | some f, some l =>
+    if f.id ≤ id ∧ id ≤ l.id then
+      { g with shards := updFirst (fun s => s.id ≥ id) (fun s => { s with markDelete := true }) g.shards }
+    else g
+  | _, _ => g
+
 /-- `pruneShardGroups` for one policy: mark the shard with the id, drop deleted groups whose
 shards are all marked; returns the largest end time of a dropped group. -/
 def pruneSGs (id : Nat) : List SG → List SG × Option Int
   | [] => ([], none)
   | g :: rest =>
-    let g' : SG :=
-      match g.shards.head?, g.shards.getLast? with
-      | some f, some l =>
-        if f.id ≤ id ∧ id ≤ l.id then
-          -- sort.Search for the first shard with ID ≥ id
-          let pos := (g.shards.findIdx? fun s => s.id ≥ id).getD g.shards.length
-          { g with shards := g.shards.mapIdx fun i s => if i = pos then { s with markDelete := true } else s }
-        else g
-      | _, _ => g
-    let (rest', e) := pruneSGs id rest
+    let g' := markShardIn id g
+    let r := pruneSGs id rest
     if g'.deleted ∧ g'.shards.all (·.markDelete) then
-      (rest', some (match e with | none => g'.stop | some x => max x g'.stop))
-    else (g' :: rest', e)
+      (r.1, some (match r.2 with | none => g'.stop | some x => max x g'.stop))
+    else (g' :: r.1, r.2)
 
+def markIndexIn (id : Nat) (g : IG) : IG :=
+  match g.indexes.head?, g.indexes.getLast? with
+  | some f, some l =>
+    if f.id ≤ id ∧ id ≤ l.id then
+      { g with indexes := updFirst (fun s => s.id ≥ id) (fun s => { s with markDelete := true }) g.indexes }
+    else g
+  | _, _ => g
+
+/-- `pruneIndexGroups` for one policy: an index group goes as soon as all its indexes are marked. -/
 def pruneIGs (id : Nat) : List IG → List IG
   | [] => []
   | g :: rest =>
-    let g' : IG :=
-      match g.indexes.head?, g.indexes.getLast? with
-      | some f, some l =>
-        if f.id ≤ id ∧ id ≤ l.id then
-          let pos := (g.indexes.findIdx? fun s => s.id ≥ id).getD g.indexes.length
-          { g with indexes := g.indexes.mapIdx fun i s => if i = pos then { s with markDelete := true } else s }
-        else g
-      | _, _ => g
+    let g' := markIndexIn id g
     if g'.indexes.all (·.markDelete) then pruneIGs id rest else g' :: pruneIGs id rest
 
 /-- `TimeReserveHigh32`: the high 32 bits of an end time. -/
@@ -656,14 +665,12 @@ def createDataNode (d : Data) (httpAddr tcpAddr role : String) : Step :=
   if d.dataNodes.any (·.host = httpAddr) then
     let c := d.maxConnID + 1
     -- DataNodeByHttpHost: the first node with that host
-    let idx := (d.dataNodes.findIdx? (·.host = httpAddr)).getD 0
-    done { d with maxConnID := c, dataNodes := d.dataNodes.mapIdx fun i n => if i = idx then { n with connID := c } else n }
+    done { d with maxConnID := c, dataNodes := updFirst (·.host = httpAddr) (fun n => { n with connID := c }) d.dataNodes }
   else
     let c := d.maxConnID + 1
     let d := { d with maxConnID := c }
     if d.dataNodes.any (·.tcpHost = tcpAddr) then
-      let idx := (d.dataNodes.findIdx? (·.tcpHost = tcpAddr)).getD 0
-      done { d with dataNodes := d.dataNodes.mapIdx fun i n => if i = idx then { n with connID := c } else n }
+      done { d with dataNodes := updFirst (·.tcpHost = tcpAddr) (fun n => { n with connID := c }) d.dataNodes }
     else
       let id := d.maxNodeID + 1
       let n : Node := { id := id, host := httpAddr, tcpHost := tcpAddr, role := role, connID := c }
@@ -763,6 +770,23 @@ def setDefaultRetentionPolicy (d : Data) (db rp : String) : Step :=
     | .error e => fail d e
     | .ok _ => done (setDB d { dbi with defaultRP := rp })
 
+/-- `checkUpdateRetentionPolicyName`: the new name is taken by another policy -/
+def nameClash (dbi : DB) (rp : String) (u : RPUpdate) : Bool :=
+  match u.newName with
+  | none => false
+  | some n => n ≠ rp ∧ (dbi.rp? n).isSome
+
+/-- the database after `updateWithOtherRetentionPolicy` + the re-keying of a renamed policy
+(`fix:` 7b717c6): `delete(map, oldName); map[newName] = rpi`, the default name follows; then
+`makeDefault`. The object was found under key `k`. -/
+def writeBack (dbi : DB) (k newName : String) (r r' : RP) (makeDefault : Bool) : DB :=
+  let dbi1 : DB :=
+    if newName ≠ r.name then
+      { dbi with rps := alInsert newName r' (alErase r.name (alErase k dbi.rps)),
+                 defaultRP := if dbi.defaultRP = r.name then newName else dbi.defaultRP }
+    else { dbi with rps := alInsert k r' dbi.rps }
+  { dbi1 with defaultRP := if makeDefault then newName else dbi1.defaultRP }
+
 /-- `Data.UpdateRetentionPolicy` (after the re-keying fix). -/
 def updateRetentionPolicy (d : Data) (db rp : String) (u : RPUpdate) : Step :=
   match getDatabase d db with
@@ -771,11 +795,7 @@ def updateRetentionPolicy (d : Data) (db rp : String) (u : RPUpdate) : Step :=
     match dbi.getRP rp with
     | .error e => fail d e
     | .ok (k, r) =>
-      -- checkUpdateRetentionPolicyName
-      let nameClash := match u.newName with
-        | none => false
-        | some n => n ≠ rp ∧ (dbi.rp? n).isSome
-      if nameClash then fail d eRpExists
+      if nameClash dbi rp u then fail d eRpExists
       else
         let x : Durs := { duration := u.duration.getD r.duration, sg := u.sgDuration.getD r.sgDuration, ig := u.igDuration.getD r.igDuration,
                           merge := 0, hot := u.hot.getD r.hot, warm := u.warm.getD r.warm, cold := u.indexCold.getD r.indexCold }
@@ -785,14 +805,7 @@ def updateRetentionPolicy (d : Data) (db rp : String) (u : RPUpdate) : Step :=
           let newName := u.newName.getD r.name
           let r' : RP := { r with name := newName, sgDuration := y.sg, hot := y.hot, warm := y.warm, indexCold := y.cold,
                                   igDuration := y.ig, duration := y.duration }
-          let oldName := r.name
-          let dbi1 : DB :=
-            if newName ≠ oldName then
-              -- delete(map, oldName); map[newName] = rpi  (the object was found under key k = oldName)
-              { dbi with rps := alInsert newName r' (alErase oldName (alErase k dbi.rps)),
-                         defaultRP := if dbi.defaultRP = oldName then newName else dbi.defaultRP }
-            else { dbi with rps := alInsert k r' dbi.rps }
-          done (setDB d { dbi1 with defaultRP := if u.makeDefault then newName else dbi1.defaultRP })
+          done (setDB d (writeBack dbi k newName r r' u.makeDefault))
 
 def createMeasurement (pick : Nat) (d : Data) (db rp mst : String) (ski : Option ShardKey) (engine : Nat) (fields : List FieldReq) : Step :=
   match getRP d db rp with
@@ -894,16 +907,14 @@ def deleteShardGroup (d : Data) (db rp : String) (id : Nat) (deleteType : Int) :
   | .error e => fail d e
   | .ok (dbi, k, r) =>
     -- the first group with the id; CancelDelete (1) clears the stamp, anything else sets it
-    let idx := r.shardGroups.findIdx? (·.id = id)
-    let sgs := r.shardGroups.mapIdx fun i g => if idx = some i then { g with deleted := deleteType ≠ 1 } else g
+    let sgs := updFirst (·.id = id) (fun g => { g with deleted := deleteType ≠ 1 }) r.shardGroups
     done (setRP d dbi k { r with shardGroups := sgs })
 
 def deleteIndexGroup (d : Data) (db rp : String) (id : Nat) : Step :=
   match getRP d db rp with
   | .error e => fail d e
   | .ok (dbi, k, r) =>
-    let idx := r.indexGroups.findIdx? (·.id = id)
-    let igs := r.indexGroups.mapIdx fun i g => if idx = some i then { g with deleted := true } else g
+    let igs := updFirst (·.id = id) (fun g => { g with deleted := true }) r.indexGroups
     done (setRP d dbi k { r with indexGroups := igs })
 
 def pruneGroups (d : Data) (shardGroup : Bool) (id : Nat) : Step :=
@@ -915,13 +926,10 @@ def updateShardInfoTier (d : Data) (shardID tier : Nat) (db rp : String) : Step 
   | .error e => fail d e
   | .ok (dbi, k, r) =>
     if r.shardGroups.any (fun g => g.shards.any (·.id = shardID)) then
-      -- the first shard with the id (ids are unique)
-      let gi := (r.shardGroups.findIdx? fun g => g.shards.any (·.id = shardID)).getD 0
-      done (setRP d dbi k { r with shardGroups := r.shardGroups.mapIdx fun i g =>
-        if i = gi then
-          let si := (g.shards.findIdx? (·.id = shardID)).getD 0
-          { g with shards := g.shards.mapIdx fun j s => if j = si then { s with tier := tier } else s }
-        else g })
+      -- the first shard with the id
+      let sgs := updFirst (fun g => g.shards.any (·.id = shardID))
+        (fun g => { g with shards := updFirst (·.id = shardID) (fun s => { s with tier := tier }) g.shards }) r.shardGroups
+      done (setRP d dbi k { r with shardGroups := sgs })
     else fail d ("cannot_find_shard_" ++ toString shardID ++ "_for_rp_" ++ rp ++ "_on_database_" ++ db)
 
 def createUser (d : Data) (name hash : String) (admin rwuser : Bool) : Step :=
